@@ -3288,7 +3288,7 @@ class CompileTarget(BuildTarget):
     def get_generated_headers(self) -> T.List[File]:
         gen_headers: T.List[File] = []
         for dep in self.depends:
-            gen_headers += [File(True, dep.subdir, o) for o in dep.get_outputs()]
+            gen_headers += [File(True, dep.get_builddir(), o) for o in dep.get_outputs()]
         return gen_headers
 
     def is_linkable_output(self, output: str) -> bool:
